@@ -85,6 +85,10 @@ def main():
             ok = ok and good
             print(name, "OK" if good else "NOT-OK", "; ".join("%s -> %d" % (p, r["exit"]) for p, r in res.items()))
         sys.exit(0 if ok else 1)
+    # several invocations may run side by side (disjoint --only sets): the cache is updated under a lock
+    import fcntl
+    lock = open(cache_path + ".lock", "w")
+    fcntl.flock(lock, fcntl.LOCK_EX)
     if os.path.exists(cache_path):
         cache = json.load(open(cache_path))
     for name, meta, tests, res, wall in rows:
